@@ -213,7 +213,8 @@ Definition perform_include (cur : option name) (es : list nexpr) (ign : bool) (s
                     (with_loaded (if q_incl_loaded Q then loaded s else [])
                        (with_blocks (prepare (blocks_of top)) s)) in
         match call (TTemplate (if q_incl_block Q then cur else None) top) s1 with
-        | Ok s2 => Ok (with_outer (outer s) (with_loaded (loaded s) (with_blocks (blocks s) (restore_frames nfr s2))))
+        | Ok s2 => Ok (with_outer (outer s2 - 10)                          (* decr_depth(INCLUDE_RECURSION_COST) *)
+                        (with_loaded (loaded s) (with_blocks (blocks s) (restore_frames nfr s2))))
         | o => wrap_err E_BadInclude o
         end
       else Err E_Limit
